@@ -1,20 +1,21 @@
-\* non-vacuity: no retry after a failure on a reused connection
+\* non-vacuity: no retry
 SPECIFICATION Spec
 CONSTANTS
   NCalls = 2
   MaxDials = 2
+  QueueLimit = 2
+  ConnCap = 2
   Policy = "noretry"
   MaxRetry = 2
   AttemptBound = 4
-  RandomSelect = FALSE
-  LockInOnce = FALSE
   Dev = {}
+  NoWgWait = FALSE
+  ExactScan = TRUE
   MaxFaults = 1
-  Kinds = {"eof"}
-  OrderedStart = TRUE
+  Kinds = {"stale", "dead"}
   CancelCalls = {}
   EnvTClose = FALSE
-  Coarse = TRUE
+  OrderedStart = TRUE
   WithHist = FALSE
 VIEW ViewNoHist
 INVARIANTS FailOnlyWhen
